@@ -2,7 +2,8 @@
 from common import *
 import scripts
 
-THEOREMS = ['capture_exact', 'capture_one_exact', 'capture_all_exact', 'eoc_counterexample']
+THEOREMS = ['capture_exact', 'capture_one_exact', 'capture_all_exact', 'eoc_counterexample', 'Bcder.Props.C11b.capture_one_value', 'Bcder.Props.C11b.parse_prefix', 'Bcder.Props.C11b.captured_value_decodes', 'Bcder.Props.C11b.captured_value_read_later', 'Bcder.Props.C11b.decode_later_same', 'Bcder.Props.C11b.reencode_unchanged']
+EXTRA_MODULES = ['C11b']
 RULE = ("capture bodies reading j <= n values by every accessor family (generic, typed, skip), capture_one, capture_all, in definite / "
         "indefinite / top-level parents at depth <= 3, 3 modes; then Captured::decode, repeated decode_partial, and reading on after the "
         "capture. Oracle computed by the generator: the captured octets are the concatenation of the complete encodings of the values "
@@ -142,5 +143,5 @@ def nontrivial(req, ans):
     return ans.startswith("ok") and " C" in ans and " C- " not in ans
 
 LEVEL = "proof"
-LEVEL_TEXT = "Lean 4 theorems: for every closure that does not itself open a nested capture, Constructed::capture returns exactly the octets the closure advanced over, decoding continues immediately after them, the enclosing limit is reduced by exactly that amount and an enclosing capture sees them too (capture_exact; capture_one_exact, capture_all_exact). PARTIAL: the clause 'never the end-of-contents marker of the enclosing value' is refuted for the code as it is by a kernel-checked counterexample (eoc_counterexample) - recorded known finding D12. Correspondence + generator oracle: captures of j <= n values by every accessor family in definite/indefinite/top-level/nested parents, later decode / decode_partial, over slice/bytes/stingy/chunked sources."
+LEVEL_TEXT = "Lean 4 theorems: for every closure that does not itself open a nested capture, Constructed::capture returns exactly the octets the closure advanced over, decoding continues immediately after them, the enclosing limit is reduced by exactly that amount and an enclosing capture sees them too (capture_exact; capture_one_exact, capture_all_exact). capture_one returns exactly the octets of ONE complete value the grammar accepts at the capture position, the Constructed is unchanged and decoding continues right behind it (C11b.capture_one_value, via the skip-machine theorems of C10); the grammar is local (C11b.parse_prefix), so the captured octets parsed on their own - by the grammar and, through C02, by the generic reader at top level - are exactly that value with nothing left: decoding later = decoding in place (C11b.captured_value_decodes, captured_value_read_later, decode_later_same); writing captured data back out reproduces it unchanged (C11b.reencode_unchanged). PARTIAL: the clause 'never the end-of-contents marker of the enclosing value' is refuted for the code as it is by a kernel-checked counterexample (eoc_counterexample) - recorded known finding D12. Correspondence + generator oracle: captures of j <= n values by every accessor family in definite/indefinite/top-level/nested parents, later decode / decode_partial, over slice/bytes/stingy/chunked sources."
 LEVEL_NOTE = 'Trusted: Lean 4.33 kernel; axioms propext, Classical.choice, Quot.sound only; the hand-written model (lean/Bcder/Model) tied to /repo on every run by differential correspondence (tools/check.py, harness/, lean/Driver.lean); reference definitions lean/Bcder/Spec. That the octets advanced over are complete value encodings is the frame lemma of C02; nested captures inside a capture body are covered by the correspondence only. D12 is listed in known_findings.json.'
